@@ -7,13 +7,24 @@ from vlib import zlit, coq_str
 
 UNITS = "constants"
 
+MANIFEST = {
+    "text": ("Theorems over Gallina definitions regenerated from primitive/constants.go and util.go on every run: every declared constant is accepted "
+             "and specifically named; each validity check accepts no undeclared value for EVERY integer / string (structural proof, not enumeration); "
+             "opcodes are exactly one of request/response; Check* helpers follow the predicates; capability predicates equal hand-transcribed "
+             "specification tables on the six supported versions. The translator's output is compared with the compiled code on the complete 8/16-bit "
+             "domains and sampled 32-bit/string domains, and the property's predicate is evaluated directly on the implementation."),
+    "technique": "Rocq proof over go2coq-regenerated definitions + model/code correspondence",
+    "design_ref": "3 C19",
+    "note": "coq/spec/SpecTables.v is a human transcription of specs/*.spec.",
+}
+
 
 def lit(kind, v):
     return zlit(v) if kind == "int" else coq_str(v)
 
 
 def check(run):
-    fails = vlib.standard_prelude(run, UNITS)
+    fails = vlib.standard_prelude(run, UNITS, "c19")
     broken = []          # names of ties / theorems that no longer check
     if "forbidden" in fails:
         broken.append("forbidden declarations in the development: %s" % fails["forbidden"])
@@ -34,8 +45,8 @@ def check(run):
     recs = []
     if "harness" not in fails:
         table = os.path.join(vlib.COQ, "gen", "constants_table.json")
-        args = ["c19", table] + (["thorough"] if run.tier == "thorough" else [])
-        rc, out, err = vlib.harness(args, run.seed)
+        args = [table] + (["thorough"] if run.tier == "thorough" else [])
+        rc, out, err = vlib.harness("c19", args, run.seed)
         if rc != 0:
             broken.append("harness c19 failed rc=%s: %s" % (rc, err[-400:]))
         else:
